@@ -68,4 +68,21 @@ def decodeRow (n : Nat) (es : List ZEntry) : List (Option Act) :=
       | _ => row
     else row) (List.replicate n none)
 
+/-! ### `-zip`: whole tables as the two `init()` functions leave them -/
+
+/-- the goto `init()` (gototable.go `gotoTableCompSrc`): cell-by-cell copy
+    `for i < numStates { for j < numNTSymbols { gotoTab[i][j] = tab[i][j] } }` into a zero table;
+    a cell outside the decoded slice would be an index panic in Go and is modelled by `-2`, a value
+    no generated table contains, so that a theorem about it cannot hold by accident for short tables -/
+def copyGoto (nStates nNT : Nat) (tab : Array (Array Int)) : Array (Array Int) :=
+  ((List.range nStates).map fun i =>
+    ((List.range nNT).map fun j => ((tab[i]?).bind (·[j]?)).getD (-2)).toArray).toArray
+
+/-- tables after the `-zip` round trip: `GenCompActionTable` encodes every row with `encodeRow`
+    and carries `CanRecover` over; the generated `init()` decodes into `[numSymbols]action` -/
+def zipTables (T : PTables) : PTables :=
+  { T with
+    action := T.action.map fun row => (decodeRow row.size (encodeRow row.toList)).toArray
+    goto_ := copyGoto T.nStates T.nts.length T.goto_ }
+
 end Gocc
